@@ -722,7 +722,7 @@ impl Property for C02 {
     }
 
     fn rule() -> &'static str {
-        "one evaluation = one seeded scenario: a tree (directories, files, fifos, symlinks to files / directories inside and outside / ancestors / themselves / nothing / other links) built for real on tmpfs, 1-4 starting points (existing, missing, files, links, duplicates; spelled t, ./t, t/), follow mode -P/-H/-L/-follow, every (mindepth, maxdepth) in 0..5 incl. mindepth > maxdepth, -depth and -sorted on/off, `-print0` into a simulated stdout (short writes, EINTR); fault batches: directories made unreadable (000/0300) or unsearchable (0600) under a dropped uid, and a scripted racing process that removes / replaces / renames / creates entries right after the k-th record is written; oracle: independent lstat/stat/readdir walk run on the same tree before find starts; starting points also through -files0-from (with a zero-length name, without the final NUL); 1/25 of the runs walk a chain 24-48 levels deep while the soft RLIMIT_NOFILE leaves 16-22 descriptors; the process environment is a dimension too (variables nobody should listen to such as POSIXLY_CORRECT, TZ with daylight saving, LC_ALL, in a sixth of the runs; descriptor 1 a terminal in a tenth); after the simulated runs a slice of the same scenarios goes through the real find executable (a difference is a violation); distinct = distinct abstract trace (write results, mutations, exit status); non-trivial = a fault fired or a shape probe hit (cycle, dangling link, followed link, mindepth > maxdepth, several / missing starting points)"
+        "one evaluation = one seeded scenario: a tree (directories, files, fifos, symlinks to files / directories inside and outside / ancestors / themselves / nothing / other links) built for real on tmpfs, 1-4 starting points (existing, missing, files, links, duplicates; spelled t, ./t, t/), follow mode -P/-H/-L/-follow (-follow also behind a -P/-H/-L flag: then as -L), every (mindepth, maxdepth) in 0..5 incl. mindepth > maxdepth, -depth and -sorted on/off, `-print0` into a simulated stdout (short writes, EINTR); fault batches: directories made unreadable (000/0300) or unsearchable (0600) under a dropped uid, and a scripted racing process that removes / replaces / renames / creates entries right after the k-th record is written; oracle: independent lstat/stat/readdir walk run on the same tree before find starts; starting points also through -files0-from (with a zero-length name, without the final NUL); 1/25 of the runs walk a chain 24-48 levels deep while the soft RLIMIT_NOFILE leaves 16-22 descriptors; the process environment is a dimension too (variables nobody should listen to such as POSIXLY_CORRECT, TZ with daylight saving, LC_ALL, in a sixth of the runs; descriptor 1 a terminal in a tenth); after the simulated runs a slice of the same scenarios goes through the real find executable (a difference is a violation); distinct = distinct abstract trace (write results, mutations, exit status); non-trivial = a fault fired or a shape probe hit (cycle, dangling link, followed link, mindepth > maxdepth, several / missing starting points)"
     }
 
     fn components() -> Value {
